@@ -416,11 +416,35 @@ fn canon(bytes: &[u8]) -> Vec<u8> {
     out
 }
 
-/// Remove the monotone `WriterMetrics` counters from the Debug rendering. `None` if the text
-/// does not look as expected (then states are not merged).
+/// Remove the monotone `WriterMetrics` counters from the Debug rendering, wherever the field sits
+/// (brace matching, so that reordering the struct's fields does not matter). `None` if the text does
+/// not look as expected (then states are not merged).
 fn strip_dbg(d: &str) -> Option<String> {
     let a = d.find("metrics: ")?;
-    let b = d[a..].find("}, ")? + a + 3;
+    let open = d[a..].find('{')? + a;
+    let mut depth = 0usize;
+    let mut close = None;
+    for (i, c) in d[open..].char_indices() {
+        match c {
+            '{' => depth += 1,
+            '}' => {
+                depth -= 1;
+                if depth == 0 {
+                    close = Some(open + i + 1);
+                    break;
+                }
+            }
+            _ => {}
+        }
+    }
+    let mut b = close?;
+    let mut a = a;
+    // take one separator along: the one after the field, or (last field) the one before it
+    if d[b..].starts_with(", ") {
+        b += 2;
+    } else if d[..a].ends_with(", ") {
+        a -= 2;
+    }
     Some(format!("{}{}", &d[..a], &d[b..]))
 }
 
@@ -509,7 +533,10 @@ pub fn bfs(cap: usize, end: &str, maxf: usize, budget: u64) -> Report {
     frontier.push_back(vec![]);
     while let Some(hist) = frontier.pop_front() {
         maxdepth = maxdepth.max(hist.len());
-        if rep.transitions > budget || rep.full() {
+        // when the writer's Debug rendering is not recognised states cannot be merged and the search
+        // never closes: explore a bounded number of histories instead and say so
+        let limit = if merged { budget } else { budget.min(300_000) };
+        if rep.transitions > limit || rep.full() {
             rep.exhaustive = false;
             rep.flag("budget-hit");
             break;
